@@ -169,6 +169,16 @@ func (e *StdEvents) Label(in ssa.Instruction) []string {
 			}
 		}
 	}
+	if n == "(*Client).cmd" && len(cc.Args) >= 3 {
+		if fm, ok := constString(cc.Args[2]); ok {
+			ls = append(ls, "ccmd", "ccmd:"+fm)
+		} else {
+			ls = append(ls, "ccmd", "ccmd:dyn")
+		}
+	}
+	if n == "(*textproto.Conn).Cmd" {
+		ls = append(ls, "wire-cmd")
+	}
 	if n == "(*Conn).writeResponse" {
 		ls = append(ls, "reply")
 		if code, ok := constInt(cc.Args[1]); ok {
